@@ -12,6 +12,13 @@
 // arguments apart (reordering / duplication / dropping become observable at run time).
 // The expected result next to each call is written out by the generator (argument lists in
 // source order); it never goes through an arity-indexed library function.
+//
+// Every site is two-phase: it constructs (the curried function, the lifted function, the
+// builder, the type-class instance) and registers its observations with c.Obs. A case
+// constructs TWO generations of the site for the same type arguments (other values, other
+// recording function, other component instances) before observing either (instance identity:
+// rt.Cur, <member>/instance-identity), and the observations fork every partial application at
+// every level (rt.Fork, rt.Fork1..9: <member>/forked-partial-application).
 package main
 
 import (
@@ -53,13 +60,27 @@ func assignments(tier string) int {
 	return 16
 }
 
+// genTwo derives generation 2 of a case from generation 1: other values at every position
+// (so that an argument or component observation that crosses over is visible), the same
+// equal / smaller / greater relation between the two operands.
+func genTwo(c1 *rt.Cx) *rt.Cx {
+	c2 := &rt.Cx{W: c1.W, Idx: c1.Idx, Variant: c1.Variant, Gen: 2, Bias: c1.Bias, ForkSeed: c1.ForkSeed + 1}
+	for k := 1; k <= rt.MaxPos; k++ {
+		c2.V[k] = c1.V[k] + "#2"
+		c2.U[k] = c1.U[k] + "#2"
+		c2.Y[k] = c2.V[k] + "'"
+	}
+	c1.Other, c2.Other = c2, c1
+	return c2
+}
+
 func runCase(w *vrt.W, mine []int, i int) {
 	J := assignments(w.Tier)
 	st := &sites[mine[i/(2*J)]]
 	variant := (i / J) % 2
 	j := i % J
 	r := w.Rand(i)
-	c := &rt.Cx{W: w, Idx: i, Variant: "distinct-types"}
+	c := &rt.Cx{W: w, Idx: i, Variant: "distinct-types", Gen: 1, ForkSeed: j}
 	if variant == 1 {
 		c.Variant = "same-type"
 	}
@@ -67,11 +88,41 @@ func runCase(w *vrt.W, mine []int, i int) {
 	if n < 1 {
 		n = 1
 	}
-	// value assignment: position-tagged, so pairwise distinct by construction
+	// value assignment: position-tagged, so pairwise distinct by construction.
+	// The positions whose component instance differs in generation 2 (Bias), and the position at
+	// which the two operands first differ, are enumerated for j = 1..min(n,15): position j (and
+	// j+15) carries the different instance, the operands differ exactly at / from that position
+	// on (distinct-types: j, same-type: j+15 when it exists), so that for every position k of
+	// every member the instance given at k decides an observed result. j = 0: plain tagging,
+	// equal operands, every position different. Other j: PRNG.
 	mode := 0
 	p := 1 + r.IntN(n)
-	if j > 0 {
+	switch {
+	case j == 0:
+		for k := 1; k <= n; k++ {
+			c.Bias[k] = true
+		}
+	case j <= n && j <= 15:
+		c.Bias[j] = true
+		p = j
+		if j+15 <= n {
+			c.Bias[j+15] = true
+			if variant == 1 {
+				p = j + 15
+			}
+		}
+		// exactly at p (Eq/Hash: the trivial instance at p then decides); from p on for the even
+		// j of the distinct-types instantiation where same-type covers the same position
+		mode = 1
+		if j%2 == 0 && variant == 0 && j+15 > n {
+			mode = 4
+		}
+	default:
 		mode = r.IntN(5)
+		c.Bias[1+r.IntN(n)] = true
+		if r.IntN(3) == 0 {
+			c.Bias[p] = true
+		}
 	}
 	for k := 1; k <= rt.MaxPos; k++ {
 		if j == 0 {
@@ -98,26 +149,49 @@ func runCase(w *vrt.W, mine []int, i int) {
 				c.U[k] = c.V[k][:len(c.V[k])-1] // a proper prefix: smaller
 			}
 		}
+		c.Y[k] = c.V[k] + "'"
 	}
-	rt.Cur = c
+	c2 := genTwo(c)
+	// both constructions are made before either is observed; construction order and
+	// observation order alternate, the construction observed first is observed again at the end
+	first, second := c, c2
+	if j%2 == 1 {
+		first, second = c2, c
+	}
+	o1, o2 := first, second
+	if (j/2)%2 == 1 {
+		o1, o2 = second, first
+	}
+	site := st.Distinct
+	if variant == 1 {
+		site = st.Same
+	}
+	witness := func() any {
+		return map[string]any{"member": st.Member, "instantiation": c.Variant,
+			"constructed": []int{first.Gen, second.Gen}, "observed": []int{o1.Gen, o2.Gen, o1.Gen},
+			"construction_1": c.Witness(), "construction_2": c2.Witness()}
+	}
 	w.Begin(i, st.Member)
-	w.Guard(i, c.Witness, func() {
-		if variant == 0 {
-			st.Distinct(c)
-		} else {
-			st.Same(c)
-		}
+	w.Guard(i, witness, func() {
+		first.Run(func() { site(first) })
+		second.Run(func() { site(second) })
+		o1.Run(o1.Observe)
+		o2.Run(o2.Observe)
+		o1.Run(o1.Observe)
 	})
 	w.Done(i)
-	rt.Cur = nil
-	w.Max("component_observations_max_per_case", c.NComp)
-	if c.Member != st.Member {
-		c.Member = st.Member
-		c.Fail("site-table", "the generated site registered itself under another name: harness defect")
+	w.Add("identity.cases_two_constructions_interleaved", 1)
+	w.Add(fmt.Sprintf("identity.constructed_%d%d.observed_%d%d%d", first.Gen, second.Gen, o1.Gen, o2.Gen, o1.Gen), 1)
+	w.Max("component_observations_max_per_case", c.NComp+c2.NComp)
+	for _, g := range []*rt.Cx{c, c2} {
+		if g.Member != st.Member {
+			g.Member = st.Member
+			g.Fail("site-table", "the generated site registered itself under another name: harness defect")
+		}
 	}
 	if j == 0 && variant == 1 && w.WantSample() && st.N >= 3 && r.IntN(4) == 0 {
 		w.Sample(map[string]any{"member": st.Member, "positions": st.N, "instantiation": c.Variant, "values": c.V[1 : st.N+1],
-			"f_received": c.Calls, "observed": c.Checks})
+			"f_received": c.Calls, "observed": c.Checks, "second_construction_values": c2.V[1 : st.N+1], "g_received": c2.Calls})
 	}
 }
 
@@ -142,6 +216,21 @@ func nontrivialMembers() int {
 		}
 	}
 	return len(seen)
+}
+
+// forkFamilies: the families whose members return something that can be applied more than
+// once (curried functions, partial applications, lifted functions, builders); each must have
+// been forked (rt.Fork) — written out here independently of the generator.
+func forkFamilies() []string {
+	out := []string{"curried.Func", "curried.Flip", "curried.FlipApply", "curried.SlipL", "curried.Compose", "curried.Revert",
+		"as.Curried", "as.Func", "as.UnTupled", "as.Tupled", "as.Supplier", "fp.Func.ApplyFirst", "fp.Func.ApplyLast",
+		"hlist.Lift", "hlist.Rift", "product.Lift", "unit.Func", "try.Curried", "try.Func", "future.Func"}
+	for _, m := range []string{"option", "try", "future"} {
+		for _, f := range []string{"LiftA", "LiftM", "Flap", "Method", "FlatMethod", "Applicative", "Chain"} {
+			out = append(out, m+"."+f)
+		}
+	}
+	return out
 }
 
 func main() {
@@ -170,7 +259,7 @@ func main() {
 		},
 		Exhaustive:    func(string) bool { return true },
 		CaseCPUBudget: 120,
-		Rule:          "index set = every generated call site, i.e. every (family, arity) member the library exports for the families of C14 (list: coverage.pairs_executed; the generator ./c14/gen enumerates the arity ranges genfp.MaxFunc / MaxProduct / MaxCompose give: 0/1/2..9 function families, 1/2..21 product families, 2..5 fp.Compose). case = (call site, instantiation, value assignment): instantiation is 'distinct-types' (A1..An := the last n of the pairwise distinct named types T1..T22) or 'same-type' (every Ai := S); value assignment j=0 is the plain tagging a1..an, j>0 draws a PRNG suffix per position (values stay position-tagged, hence pairwise distinct) plus, for the Eq/Ord/Hash/Monoid families, a second operand that differs from the first at none / one / a random subset / a suffix of the positions. The expected value next to each call is written out by the generator; the function argument f records the argument vector it received (every call must carry exactly the wanted vector, at least one call). The arity dimension is enumerated completely (exhaustive refers to this finite index set, not to the values). distinct_nontrivial = number of distinct members with at least 2 argument positions whose call site ran (each site registers itself when it executes).",
+		Rule:          "index set = every generated call site, i.e. every (family, arity) member the library exports for the families of C14 (list: coverage.pairs_executed; the generator ./c14/gen enumerates the arity ranges genfp.MaxFunc / MaxProduct / MaxCompose give: 0/1/2..9 function families, 1/2..21 product families, 2..5 fp.Compose). case = (call site, instantiation, value assignment): instantiation is 'distinct-types' (A1..An := the last n of the pairwise distinct named types T1..T22) or 'same-type' (every Ai := S); value assignment j=0 is the plain tagging a1..an, j>0 draws a PRNG suffix per position (values stay position-tagged, hence pairwise distinct) plus, for the Eq/Ord/Hash/Monoid families, a second operand that differs from the first at none / one / a random subset / a suffix of the positions. The expected value next to each call is written out by the generator; the function argument f records the argument vector it received (every call must carry exactly the wanted vector, at least one call). The arity dimension is enumerated completely (exhaustive refers to this finite index set, not to the values). distinct_nontrivial = number of distinct members with at least 2 argument positions whose call site ran (each site registers itself when it executes). INSTANCE IDENTITY: every case runs its site twice (constructions 1 and 2) for the same type arguments, with other values, another recording function (f(..) / g(..), f<k> / g<k> for compositions) and other component instances; both are constructed before either is observed, construction order and observation order alternate with j (all four combinations), the construction observed first is observed again at the end. A recording function or component instance consulted while ANOTHER construction is observed is a violation (<member>/instance-identity), as is an instance that answers for all-equal operands without consulting every component it was given. For eq/ord/hash/monoid/clone TupleN construction 2 carries at chosen positions an instance that BEHAVES differently (Ord reversed, Eq/Hashable trivial with constant hash, Monoid/Clone differently tagged and combining the other way round); the reference is computed from the instances given to that construction. j=0: every position different, equal operands; j=1..min(n,15): position j (and j+15) different and the operands differ exactly at position j (distinct-types; from position j on for even j when n < j+15) or exactly at j+15, else j (same-type), so that every position of every member decides an observed result (identity.member_positions_decided.<family> = sum of arities). FORKS: every member that returns something applicable more than once is forked: curried results (curried.FuncN/FlipN/SlipLN/ComposeN, as.CurriedN, try.CurriedN, option/try/future FlapN) at EVERY application level L = 1..N (from the partial application of x1..x(L-1) two continuations p(xL), p(yL) are derived, both before either is finished with its own remaining arguments), Applicative/Chain builders at every stage (b.M(a_L) and b.M(y_L) from one builder prefix, both completed with the same methods), FlipApplyN / ApplyFirstN / ApplyLastN / MethodN / FlatMethodN / SupplierN as two partial applications of one function crossed with two last arguments, and lifted / converted functions (as.FuncN, UnTupledN, Tupled2, RevertN, hlist.LiftN/RiftN, product.LiftN, LiftAN/LiftMN, try/future FuncN, unit.FuncN, fp.ComposeN, fn1.MergeN) as one constructed function applied to two argument vectors; the two continuations are finished in both orders (alternating), each must equal the defining equation for its own argument vector and f must have received exactly these two vectors (<member>/forked-partial-application).",
 		Assumptions: []string{
 			"values are sampled (16 assignments per site and instantiation in quick, 256 in thorough); only the (family, arity) index set is exhaustive",
 			"futures are observed after running every task the default executors scheduled (spawn hook fp.VerifSetSpawn, FIFO); inputs are already-completed futures",
@@ -178,12 +267,48 @@ func main() {
 			"Hash of a tuple is only required to consult every component instance with its own component and to agree with Eqv; the mixing formula is not fixed by the oracle",
 			"ord.TupleN needs about 3.5*2^p component comparisons when the operands first differ at position p (a cost defect, not part of C14); observations are run under a logical budget of 2^27 component observations and would be abandoned and counted (ord.observations_abandoned_budget) beyond it",
 			"by parametricity the distinct-types instantiation cannot reorder at run time; it is kept because it is the instantiation in which the generated library text must type-check position by position",
+			"two constructions per case and type instantiation, interleaved in all four (construction, observation) orders; a member whose behaviour depends on a longer history (three or more constructions, or constructions for OTHER type arguments) is outside what is observed",
+			"forks are binary (two continuations per level, finished in both orders, one level at a time); builder chains are forked at every stage with the chain's own methods; futures are completed ones and their tasks run FIFO per construction",
 		},
 		Floors: func(tier string) map[string]int64 {
 			fl := map[string]int64{"distinct": int64(nontrivialMembers()), "sites.distinct-types": int64(len(sites)), "sites.same-type": int64(len(sites))}
+			perFamily := map[string]int64{}
+			for _, s := range sites {
+				perFamily[s.Family]++
+			}
 			for _, f := range familyNames() {
 				fl["hit."+f] = 1
 			}
+			// instance identity: every case constructs its member twice for the same type arguments
+			// before observing either; all four (construction order, observation order) combinations
+			fl["identity.cases_two_constructions_interleaved"] = int64(2 * len(sites))
+			for _, o := range []string{"constructed_12.observed_121", "constructed_21.observed_212", "constructed_12.observed_212", "constructed_21.observed_121"} {
+				fl["identity."+o] = int64(len(sites))
+			}
+			// ... and for the type-class families the differently-behaving component instance decided
+			// an observed result at every position of every member (sum of the arities)
+			for _, f := range []string{"eq.Tuple", "ord.Tuple", "hash.Tuple", "monoid.Tuple", "clone.Tuple"} {
+				var sum int64
+				seen := map[string]bool{}
+				for _, s := range sites {
+					if s.Family == f && !seen[s.Member] {
+						seen[s.Member] = true
+						sum += int64(s.N)
+					}
+				}
+				fl["identity.member_positions_decided."+f] = sum
+			}
+			// persistence of partial applications: every partially-applicable family forked
+			for _, f := range forkFamilies() {
+				if perFamily[f] == 0 {
+					fl["fork."+f+"(family-not-generated)"] = 1
+					continue
+				}
+				fl["fork."+f] = perFamily[f]
+			}
+			fl["fork.below_first_level"] = 1000
+			fl["fork.order.first_finished_first"] = 1000
+			fl["fork.order.second_finished_first"] = 1000
 			return fl
 		},
 		Finish: func(tier string, m *vrt.Merged, cov map[string]any) {
